@@ -9,6 +9,8 @@ package main
 
 import (
 	"fmt"
+	"github.com/goghcrow/yae/parser/oper"
+	"github.com/goghcrow/yae/parser/token"
 	"strings"
 
 	yae "github.com/goghcrow/yae"
@@ -108,7 +110,10 @@ func (d dbgOut) Sx() Sx {
 	return L(d.o.Sx(), LS(es), Runes(d.report))
 }
 
+var c19Table *table
+
 func runC19(r *Run) {
+	c19Table = newTable("builtin", append([]oper.Operator{}, oper.BuiltIn()...))
 	vars := stdVars
 	judge := func(c evalCase) {
 		if strings.Contains(c.src, "\n") {
@@ -143,6 +148,49 @@ func runC19(r *Run) {
 				}
 			}
 			r.Count("record-reuse histories")
+		}
+		// every evaluated VARIABLE is recorded with its own value: in a program without lazy constructs every variable
+		// term is evaluated, so each identifier token that is a variable (not a callee, member name or object field
+		// name) must have an entry holding the variable's value at its column
+		if d.o.cls == "value" && !strings.ContainsAny(c.src, "?&|") && !strings.Contains(c.src, "if(") && !strings.Contains(c.src, "both(") && !strings.Contains(c.src, "lazyif") {
+			if toks, ok := implLex(c19Table, c.src); ok {
+				var stack []string
+				for ti, t := range toks {
+					switch t.Lexeme {
+					case "[", "{", "(":
+						stack = append(stack, t.Lexeme)
+					case "]", "}", ")":
+						if len(stack) > 0 {
+							stack = stack[:len(stack)-1]
+						}
+					}
+					want, isVar := vals[t.Lexeme]
+					if !isVar || string(t.Kind) != string(token.SYM) {
+						continue
+					}
+					next, prev := "", ""
+					if ti+1 < len(toks) {
+						next = toks[ti+1].Lexeme
+					}
+					if ti > 0 {
+						prev = toks[ti-1].Lexeme
+					}
+					if next == "(" || prev == "." || (next == ":" && len(stack) > 0 && stack[len(stack)-1] == "{") {
+						continue
+					}
+					found := false
+					for _, e := range d.entries {
+						if e.Col >= t.Col && e.Col <= t.Col+3 && string(ValSx(e.V)) == string(ValSx(want)) {
+							found = true
+						}
+					}
+					r.Count("variable terms checked against the record")
+					if !found {
+						r.Violate("evaluated-variable-not-recorded", what, fmt.Sprintf("variable %s at column %d has no entry with its value in the record (%d entries)", t.Lexeme, t.Col, len(d.entries)))
+						break
+					}
+				}
+			}
 		}
 		// transparency: same outcome and host-call trace as normal evaluation
 		n := runOn("closure", c.src, vars, stdValues(), c.withFns)
